@@ -4,6 +4,8 @@ import (
 	"bufio"
 	"encoding/json"
 	"fmt"
+	"io"
+	"math"
 	"os"
 	"os/exec"
 	"path/filepath"
@@ -14,6 +16,7 @@ import (
 	"strings"
 	"sync"
 	"sync/atomic"
+	"syscall"
 	"testing"
 	"time"
 
@@ -41,16 +44,40 @@ type tierCfg struct {
 	Workers int
 }
 
+// quickRuns is the size of the quick tier: a fixed number of run indexes per property
+// (0..N-1, see dealer), so that what a quick run explores - and the
+// evidence it writes - is a function of VERIF_SEED and the code, not of the speed or load of the
+// machine it runs on. The numbers are what 16 workers finish in about 50 s on the
+// reference sandbox; the wall-clock limit of the quick tier is only a safety net (a batch it
+// cuts short says so in its evidence: coverage.wall_limit_hit).
+var quickRuns = map[string]int{
+	"C01": 3000, "C02": 12000, "C03": 16500, "C04": 13000, "C05": 12500, "C06": 10500,
+	"C07": 14000, "C08": 11000, "C09": 10000, "C10": 2500, "C11": 20000, "C12": 350000,
+	"C14": 4300, "C15": 3700, "C16": 8800, "C18": 58000, "C19": 8500, "C20": 440000,
+}
+
+const quickWallLimitS = 240
+
+// quickSweepBases: in the quick tier of C10 the first quickSweepBases run indexes with
+// index%6 == 3 are bases of a single-fault sweep (complete when the base run is short enough,
+// otherwise over the requests of its teardown passes); in the thorough tier every such index is.
+const quickSweepBases = 12
+const quickPartialTargets = 16
+
 func tierOf(prop, tier string) tierCfg {
-	c := tierCfg{WallS: 55, MaxRuns: 1 << 30, Workers: 16}
-	if tier == "thorough" {
-		c.WallS = 900
-	}
+	c := tierCfg{WallS: 900, MaxRuns: 1 << 30, Workers: 16}
 	if _, e2 := otherEngines[prop]; e2 {
 		// E2 runs are tiny (tens of scheduler steps): cap the batch so that the worker logs stay manageable
 		c.MaxRuns = 3_000_000
 	}
+	if tier != "thorough" {
+		c.WallS = 55
+		if n, ok := quickRuns[prop]; ok && envInt("VERIF_WALL_S", 0) == 0 {
+			c.WallS, c.MaxRuns = quickWallLimitS, n
+		}
+	}
 	if v := envInt("VERIF_WALL_S", 0); v > 0 {
+		// explicit wall-clock budget (tools/mutant-run.sh, tools/eval-mutants.sh): as many runs as fit
 		c.WallS = v
 	}
 	if v := envInt("VERIF_MAX_RUNS", 0); v > 0 {
@@ -60,6 +87,19 @@ func tierOf(prop, tier string) tierCfg {
 		c.Workers = v
 	}
 	return c
+}
+
+func budgetText(prop, tier string, tc tierCfg) string {
+	sweeps := ""
+	if prop == "C10" && tier != "thorough" {
+		sweeps = fmt.Sprintf("; plus single-fault sweeps over the first %d sweep bases (indexes with index%%6 == 3), partial sweeps over at most %d teardown requests", quickSweepBases, quickPartialTargets)
+	} else if prop == "C10" {
+		sweeps = "; every index with index%6 == 3 is the base of a single-fault sweep"
+	}
+	if tc.MaxRuns < 1<<30 && tc.MaxRuns != 3_000_000 {
+		return fmt.Sprintf("fixed: run indexes 0..%d of the seed, executed by %d worker processes (wall-clock safety limit %d s; sum_workers_stopped_by_wall_clock is present only if it cut the batch short)%s", tc.MaxRuns-1, tc.Workers, tc.WallS, sweeps)
+	}
+	return fmt.Sprintf("wall clock: %d worker processes take the run indexes of the seed in increasing order for %d s%s", tc.Workers, tc.WallS, sweeps)
 }
 
 // ---- worker --------------------------------------------------------------------
@@ -74,6 +114,49 @@ func compact(r cs.RunResult, keepChoices bool) cs.RunResult {
 }
 
 func faultFreeIndex(i int) bool { return i%5 == 0 }
+
+// dealer hands run indexes 0..maxRuns-1 to the worker processes of a batch. The set of indexes a
+// batch executes is fixed; which process executes an index is not: workers draw the next chunk
+// from a counter file under flock, so that a worker that met long runs does not hold the batch up
+// and the indexes of a worker that died are still executed. Everything the driver derives from the
+// worker logs is independent of who ran what (agg.add and the sorts before reporting are keyed by
+// run index), and what a worker does with an index depends on the index alone.
+func dealer(prop string, wi, wn, maxRuns int) func() int {
+	chunk := 4
+	if _, e2 := otherEngines[prop]; e2 {
+		chunk = 1000
+	}
+	path := filepath.Join(workDir(prop), "next-index")
+	cur, end := 0, 0
+	return func() int {
+		if cur < end {
+			cur++
+			return cur - 1
+		}
+		f, err := os.OpenFile(path, os.O_RDWR|os.O_CREATE, 0o644)
+		if err != nil {
+			fmt.Fprintln(os.Stderr, "MACHINERY: run index counter:", err)
+			os.Exit(2)
+		}
+		defer f.Close()
+		if err := syscall.Flock(int(f.Fd()), syscall.LOCK_EX); err != nil {
+			fmt.Fprintln(os.Stderr, "MACHINERY: run index counter:", err)
+			os.Exit(2)
+		}
+		b, _ := io.ReadAll(f)
+		n, _ := strconv.Atoi(strings.TrimSpace(string(b)))
+		if n >= maxRuns {
+			return -1
+		}
+		cur, end = n, min(n+chunk, maxRuns)
+		if _, err := f.WriteAt([]byte(fmt.Sprintf("%-12d", end)), 0); err != nil {
+			fmt.Fprintln(os.Stderr, "MACHINERY: run index counter:", err)
+			os.Exit(2)
+		}
+		cur++
+		return cur - 1
+	}
+}
 
 func TestWorker(t *testing.T) {
 	prop := os.Getenv("VERIF_PROP")
@@ -94,16 +177,18 @@ func TestWorker(t *testing.T) {
 	enc := json.NewEncoder(bw)
 	start := time.Now()
 	n := 0
-	sweepsDone := 0
-	skippedBases := 0
 	debug.SetMaxStack(256 << 20) // unbounded recursion dies quickly instead of eating 1 GB first
 	startWatchdog()
-	for idx := wi; idx < maxRuns; idx += wn {
+	next := dealer(prop, wi, wn, maxRuns)
+	for idx := next(); idx >= 0; idx = next() {
 		if time.Since(start) > wall {
+			stopped := cs.RunResult{Extra: map[string]any{"workers_stopped_by_wall_clock": float64(1)}}
+			stopped.Spec.Mode = "sweep-summary"
+			_ = enc.Encode(stopped)
 			break
 		}
 		spec := cs.RunSpec{Property: prop, Seed: seed, Index: idx, FaultFree: faultFreeIndex(idx)}
-		if prop == "C10" && idx%6 == 3 && (os.Getenv("VERIF_TIER") == "thorough" || sweepsDone < 1) {
+		if prop == "C10" && idx%6 == 3 && (os.Getenv("VERIF_TIER") == "thorough" || idx < 6*quickSweepBases) {
 			// complete single-fault sweep over the requests of a fault-free base run
 			base := spec
 			base.Mode, base.FaultFree = "sweep-base", true
@@ -130,16 +215,21 @@ func TestWorker(t *testing.T) {
 				}
 			} else if l, ok := br.Extra["sweep_teardown_idx"].([]any); ok && os.Getenv("VERIF_TIER") != "thorough" {
 				partial = true
+				// at most quickPartialTargets of them, evenly spaced: one sweep runs on one worker and
+				// must not outlast the rest of the batch (its size is fixed, not cut off by the clock)
+				var all []int
 				for _, x := range l {
-					if f, ok := x.(float64); ok && len(targets) < 60 {
-						targets = append(targets, int(f))
+					if f, ok := x.(float64); ok {
+						all = append(all, int(f))
 					}
 				}
-			}
-			if _, td := br.Extra["sweep_has_teardown"]; !td && os.Getenv("VERIF_TIER") != "thorough" && skippedBases < 4 {
-				// quick tier: spend the one sweep of this worker on a base that tears something down
-				skippedBases++
-				targets = nil
+				for i := 0; i < len(all) && i < quickPartialTargets; i++ {
+					if len(all) <= quickPartialTargets {
+						targets = append(targets, all[i])
+					} else {
+						targets = append(targets, all[i*len(all)/quickPartialTargets])
+					}
+				}
 			}
 			{
 				seen := cs.RunResult{Spec: base, Extra: map[string]any{"sweep_bases_seen": float64(1)}}
@@ -156,7 +246,6 @@ func TestWorker(t *testing.T) {
 				_ = enc.Encode(seen)
 			}
 			if len(targets) > 0 && br.Machinery == "" && !br.Inconcl {
-				sweepsDone++
 				for _, i := range targets {
 					if aborted {
 						break
@@ -197,7 +286,7 @@ func TestWorker(t *testing.T) {
 		res := dispatchRun(t, spec)
 		watchRun(-1)
 		n++
-		if n%25 == 1 && res.Machinery == "" {
+		if idx%25 == 7 && res.Machinery == "" {
 			// continuous determinism guard
 			again := dispatchRun(t, spec)
 			if again.Hash != res.Hash {
@@ -590,12 +679,14 @@ func TestReplay(t *testing.T) {
 type agg struct {
 	runs, faultFree, faulted, exercised, inconclusive, capped int
 	steps, requests, passes                                   int
-	simSeconds                                                float64
+	simMicros                                                 int64 // integer, so that the sum does not depend on the order of the worker logs
 	faults, probes                                            map[string]int
 	ilsigs                                                    map[uint64]struct{}
 	states                                                    map[uint64]struct{}
 	viol                                                      map[string][]cs.RunResult // by rule/sig
 	violV                                                     map[string]cs.Violation
+	violAt                                                    map[string]cs.RunSpec
+	sampleIdx                                                 []int
 	incidental                                                map[string]int
 	machinery                                                 []string
 	died                                                      []int // run indexes during which a worker process ended
@@ -605,7 +696,7 @@ type agg struct {
 
 func newAgg() *agg {
 	return &agg{faults: map[string]int{}, probes: map[string]int{}, ilsigs: map[uint64]struct{}{}, states: map[uint64]struct{}{},
-		viol: map[string][]cs.RunResult{}, violV: map[string]cs.Violation{}, incidental: map[string]int{}, extraSum: map[string]float64{}}
+		viol: map[string][]cs.RunResult{}, violV: map[string]cs.Violation{}, violAt: map[string]cs.RunSpec{}, incidental: map[string]int{}, extraSum: map[string]float64{}}
 }
 
 func (a *agg) add(r cs.RunResult) {
@@ -639,7 +730,7 @@ func (a *agg) add(r cs.RunResult) {
 	a.steps += r.Steps
 	a.requests += r.Requests
 	a.passes += r.Passes
-	a.simSeconds += r.SimSeconds
+	a.simMicros += int64(math.Round(r.SimSeconds * 1e6))
 	for k, v := range r.Faults {
 		a.faults[k] += v
 	}
@@ -657,15 +748,48 @@ func (a *agg) add(r cs.RunResult) {
 	for _, v := range r.Viol {
 		k := v.Rule + "/" + v.Sig
 		a.viol[k] = append(a.viol[k], r)
-		a.violV[k] = v
+		if at, ok := a.violAt[k]; !ok || runOrder(r.Spec, at) {
+			a.violV[k], a.violAt[k] = v, r.Spec
+		}
 	}
 	for _, v := range r.Incidental {
 		a.incidental[v.Property+"/"+v.Rule+"/"+v.Sig]++
 	}
-	if len(a.samples) < 3 && r.Exercised && len(r.Desc) > 0 {
-		a.samples = append(a.samples, map[string]any{"run_index": r.Spec.Index, "fault_free": r.Spec.FaultFree, "scenario": r.Desc,
-			"steps": r.Steps, "requests": r.Requests, "passes": r.Passes, "faults_fired": r.Faults})
+	if r.Exercised && len(r.Desc) > 0 && r.Spec.Mode == "" && (len(a.samples) < 3 || r.Spec.Index < a.sampleIdx[len(a.sampleIdx)-1]) {
+		// the three exercised runs with the lowest index, whatever order the logs are read in
+		smp := map[string]any{"run_index": r.Spec.Index, "fault_free": r.Spec.FaultFree, "scenario": r.Desc,
+			"steps": r.Steps, "requests": r.Requests, "passes": r.Passes, "faults_fired": r.Faults}
+		at := sort.SearchInts(a.sampleIdx, r.Spec.Index)
+		a.sampleIdx = append(a.sampleIdx[:at], append([]int{r.Spec.Index}, a.sampleIdx[at:]...)...)
+		a.samples = append(a.samples[:at], append([]any{smp}, a.samples[at:]...)...)
+		if len(a.samples) > 3 {
+			a.samples, a.sampleIdx = a.samples[:3], a.sampleIdx[:3]
+		}
 	}
+}
+
+// runOrder is a total order on the runs of a batch (index, then the sweep position).
+func runOrder(x, y cs.RunSpec) bool {
+	if x.Index != y.Index {
+		return x.Index < y.Index
+	}
+	if x.Mode != y.Mode {
+		return x.Mode < y.Mode
+	}
+	if x.SweepAt != y.SweepAt {
+		return x.SweepAt < y.SweepAt
+	}
+	return x.SweepKind < y.SweepKind
+}
+
+// bySteps orders violating runs for reporting: shortest first, ties by run order.
+func bySteps(runs []cs.RunResult) {
+	sort.Slice(runs, func(i, j int) bool {
+		if runs[i].Steps != runs[j].Steps {
+			return runs[i].Steps < runs[j].Steps
+		}
+		return runOrder(runs[i].Spec, runs[j].Spec)
+	})
 }
 
 func readWorkerLogs(prop string, a *agg) {
@@ -813,6 +937,7 @@ func TestDriver(t *testing.T) {
 	var fatalLines []string
 	fatalNew := 0
 	explained := 0
+	sort.Ints(a.died)
 	for _, idx := range a.died {
 		spec := cs.RunSpec{Property: prop, Seed: seed, Index: idx, FaultFree: faultFreeIndex(idx)}
 		symptom, frame, out := probeFatal(spec)
@@ -864,7 +989,7 @@ func TestDriver(t *testing.T) {
 			knownHits[f.Rule+"/"+f.Sig] = len(a.viol[k])
 			// keep one replayable example per listed finding (shortest run of this batch, not minimised)
 			runs := a.viol[k]
-			sort.Slice(runs, func(i, j int) bool { return runs[i].Steps < runs[j].Steps })
+			bySteps(runs)
 			ex := runs[0]
 			spec := ex.Spec
 			spec.Replay, spec.Trace = true, true
@@ -889,7 +1014,7 @@ func TestDriver(t *testing.T) {
 		}
 		minimised++
 		runs := a.viol[k]
-		sort.Slice(runs, func(i, j int) bool { return runs[i].Steps < runs[j].Steps })
+		bySteps(runs)
 		base := runs[0]
 		maxReplays := 400
 		if os.Getenv("VERIF_NO_SHRINK") != "" {
@@ -964,7 +1089,7 @@ func TestDriver(t *testing.T) {
 		"scheduler_steps":             a.steps,
 		"api_requests":                a.requests,
 		"reconcile_passes":            a.passes,
-		"simulated_seconds":           a.simSeconds,
+		"simulated_seconds":           float64(a.simMicros) / 1e6,
 		"runs_per_hour":               float64(a.runs) / hours,
 		"faults_fired":                a.faults,
 		"rare_branch_probes":          a.probes,
@@ -972,6 +1097,7 @@ func TestDriver(t *testing.T) {
 		"incidental_other_properties": a.incidental,
 		"known_findings_matched":      knownLines,
 		"workers":                     tc.Workers,
+		"budget":                      budgetText(prop, tier, tc),
 		"engine":                      meta.Engine,
 		"real_vs_stub":                "real: all PKO controllers/reconcilers/adoption/patcher/preflight/probing/dynamiccache.Cache/ownerhandling; stub: API server, client, informers, manager wiring, queues, registry, third parties",
 	}
@@ -1001,7 +1127,7 @@ func TestDriver(t *testing.T) {
 	}
 
 	fmt.Printf("%s %s seed=%d: %d runs (%d exercised, %d distinct interleavings, %d fault-free, %d inconclusive) %d steps %d requests %.0f sim-seconds in %.0fs; faults fired: %v\n",
-		prop, tier, seed, a.runs, a.exercised, len(a.ilsigs), a.faultFree, a.inconclusive, a.steps, a.requests, a.simSeconds, wall, a.faults)
+		prop, tier, seed, a.runs, a.exercised, len(a.ilsigs), a.faultFree, a.inconclusive, a.steps, a.requests, float64(a.simMicros)/1e6, wall, a.faults)
 	for _, l := range knownLines {
 		fmt.Println(l)
 	}
